@@ -96,6 +96,12 @@ class HHSys(E1):
             for k in self.alpha:
                 for v in c["mults"]:
                     yield ("add", s, k, v)
+        if c.get("dict_updates"):
+            # the same multiplicities through update({key: value}) and update(Counter)
+            for s in range(S):
+                for k in self.alpha[:2]:
+                    for v in c["mults"]:
+                        yield ("updd", s, k, v)
         for s in range(S):
             for x, n in c.get("ngrams", ()):
                 yield ("ngram", s, bytes(x), n)
@@ -120,6 +126,13 @@ class HHSys(E1):
         if op == "add":
             _, s, k, v = ev
             work[s].add(k, v)
+            i = self.ident(k)
+            m[s][i] = m[s].get(i, 0) + v
+        elif op == "updd":
+            _, s, k, v = ev
+            from collections import Counter as _C
+
+            work[s].update({k: v} if v % 2 else _C({k: v}))
             i = self.ident(k)
             m[s][i] = m[s].get(i, 0) + v
         elif op == "ngram":
@@ -362,6 +375,9 @@ class HHSys(E1):
                 probs.append(f"sketch {s}: query(inf,{t}) reports ({k!r},{c}) but hh[key] = {h}")
             if c < t_eff:
                 probs.append(f"sketch {s}: query(inf,{t}) reports count {c} below threshold {t_eff}")
+        z = sk.query(0, t)
+        if len(z) != 0:
+            probs.append(f"sketch {s}: query(0,{t}) returned {len(z)} pairs: {z[:3]} (at most k = 0)")
         for kk in (1, 2, 3):
             a = sk.query(kk, t)
             if len(a) > kk or [int(c) for _, c in a] != cnts[:kk]:
@@ -437,7 +453,12 @@ def hh_alphabet(args, seed):
     other = bytes([98 + (salt % 20)])[:L]
     if other not in keys:
         keys.append(other)
+    if L >= 2:
+        # a 2-byte key that starts like the stem but has a NON-NUL tail (padding bytes of a
+        # cell can then hold something other than NUL after a shorter key took it over)
+        keys.append(stem + b"z")
     # n <= L, n == 1, and n > max_key_len (windows are then truncated to their identity)
     ng = [[stem + b"\x00" + stem, 2], [b"\x00\x00\x00", 1],
-          [(stem + b"\x00" + stem + other + stem)[: L + 3], L + 1]]
+          [(stem + b"\x00" + stem + other + stem)[: L + 3], L + 1],
+          [(stem + other + stem)[:2], 2]]  # record length == n: one window, the record itself
     return keys, ng
